@@ -14,8 +14,8 @@
 use std::hash::Hash;
 
 use super::c01::{
-    self, explore, prefix_usable, replay_with, run_specs, Call, Cfg, End, Ev, Report, Spec, Transition, A, B, G,
-    MS, S,
+    self, A, B, Call, Cfg, End, Ev, G, MS, Report, S, Spec, Transition, explore, prefix_usable,
+    replay_with, run_specs,
 };
 use super::common::{self, Ctx};
 
@@ -25,10 +25,16 @@ struct M06;
 fn check_snap(f: &[f64; 8], whence: &str, slot: usize, r: &mut Report) {
     // [offset, frequency, p00, p01, p10, p11, wander, delay]
     if !f[0].is_finite() {
-        r.viol("C06:source-offset-nonfinite", format!("{whence} of source {slot}: offset {:e}", f[0]));
+        r.viol(
+            "C06:source-offset-nonfinite",
+            format!("{whence} of source {slot}: offset {:e}", f[0]),
+        );
     }
     if f[2].is_nan() || f[2].is_infinite() {
-        r.viol("C06:source-variance-nonfinite", format!("{whence} of source {slot}: offset variance {:e}", f[2]));
+        r.viol(
+            "C06:source-variance-nonfinite",
+            format!("{whence} of source {slot}: offset variance {:e}", f[2]),
+        );
     } else if f[2] < 0.0 {
         r.viol(
             "C06:source-variance-negative",
@@ -36,10 +42,18 @@ fn check_snap(f: &[f64; 8], whence: &str, slot: usize, r: &mut Report) {
         );
     }
     if !f[7].is_finite() {
-        r.viol("C06:source-delay-nonfinite", format!("{whence} of source {slot}: delay {:e}", f[7]));
+        r.viol(
+            "C06:source-delay-nonfinite",
+            format!("{whence} of source {slot}: delay {:e}", f[7]),
+        );
     }
     // not part of the statement, kept as visible diagnostics
-    if !f[1].is_finite() || !f[5].is_finite() || f[5] < 0.0 || !f[3].is_finite() || !f[6].is_finite() {
+    if !f[1].is_finite()
+        || !f[5].is_finite()
+        || f[5] < 0.0
+        || !f[3].is_finite()
+        || !f[6].is_finite()
+    {
         r.inc("diag_frequency_part_of_estimate_not_wellformed");
     }
 }
@@ -72,7 +86,10 @@ fn judge06(_cfg: &Cfg, _m: &mut M06, tr: &Transition, rep: Option<&mut Report>) 
         if v.obs[1] < 0 {
             r.viol(
                 "C06:source-uncertainty-negative",
-                format!("observe() of source {} reports uncertainty {} units", v.slot, v.obs[1]),
+                format!(
+                    "observe() of source {} reports uncertainty {} units",
+                    v.slot, v.obs[1]
+                ),
             );
         }
     }
@@ -82,7 +99,10 @@ fn judge06(_cfg: &Cfg, _m: &mut M06, tr: &Transition, rep: Option<&mut Report>) 
                 Call::SetFreq(f) => {
                     r.inc("set_frequency_calls");
                     if !f.is_finite() {
-                        r.viol("C06:clock-frequency-nonfinite", format!("set_frequency({f:e})"));
+                        r.viol(
+                            "C06:clock-frequency-nonfinite",
+                            format!("set_frequency({f:e})"),
+                        );
                     }
                 }
                 Call::Step(_) => r.inc("steps"),
@@ -93,7 +113,11 @@ fn judge06(_cfg: &Cfg, _m: &mut M06, tr: &Transition, rep: Option<&mut Report>) 
         if let Some((kind, steer, _)) = u.steer {
             if !steer.is_finite() {
                 r.viol(
-                    if kind == 0 { "C06:clock-step-nonfinite" } else { "C06:frequency-change-nonfinite" },
+                    if kind == 0 {
+                        "C06:clock-step-nonfinite"
+                    } else {
+                        "C06:frequency-change-nonfinite"
+                    },
                     format!("steering value {steer:e} (kind {kind})"),
                 );
             }
@@ -106,7 +130,10 @@ fn judge06(_cfg: &Cfg, _m: &mut M06, tr: &Transition, rep: Option<&mut Report>) 
                 s.root_variance_cubic,
             ];
             if fields.iter().any(|f| !f.is_finite()) {
-                r.viol("C06:time-snapshot-nonfinite", format!("published TimeSnapshot root variance terms {fields:?}"));
+                r.viol(
+                    "C06:time-snapshot-nonfinite",
+                    format!("published TimeSnapshot root variance terms {fields:?}"),
+                );
             } else {
                 // error estimate handed to the clock = root_dispersion(base time) = sqrt(base)
                 if u.used.is_some() && fields[0] < 0.0 {
@@ -117,7 +144,8 @@ fn judge06(_cfg: &Cfg, _m: &mut M06, tr: &Transition, rep: Option<&mut Report>) 
                 }
                 // what clients are served while the snapshot is current (t seconds after its base time)
                 for t in [1.0f64, 131072.0] {
-                    let rad = fields[0] + t * fields[1] + t.powi(2) * fields[2] + t.powi(3) * fields[3];
+                    let rad =
+                        fields[0] + t * fields[1] + t.powi(2) * fields[2] + t.powi(3) * fields[3];
                     if !(rad >= 0.0) || rad.is_infinite() {
                         r.viol(
                             "C06:root-dispersion-radicand-not-wellformed",
@@ -151,7 +179,10 @@ fn judge06(_cfg: &Cfg, _m: &mut M06, tr: &Transition, rep: Option<&mut Report>) 
     }
     if let Some(v) = tr.views.last() {
         if let Some(f) = v.snap {
-            r.note = Some(format!("source {} phase {} offset {:e} variance {:e} delay {:e}", v.slot, v.phase, f[0], f[2], f[7]));
+            r.note = Some(format!(
+                "source {} phase {} offset {:e} variance {:e} delay {:e}",
+                v.slot, v.phase, f[0], f[2], f[7]
+            ));
         }
     }
 }
@@ -241,14 +272,30 @@ fn starts06() -> Vec<(String, Vec<Ev>)> {
     for (src, tag) in [(A, "two-way"), (G, "one-way")] {
         let d = if src == A { MS } else { 0 };
         let mut p = prefix_usable();
-        p.push(Ev::burst(src, 0, d, S, 8, MS / 10, if src == A { MS / 50 } else { 0 }));
+        p.push(Ev::burst(
+            src,
+            0,
+            d,
+            S,
+            8,
+            MS / 10,
+            if src == A { MS / 50 } else { 0 },
+        ));
         v.push((format!("benign/{tag}"), p));
         let mut p = prefix_usable();
         p.push(Ev::burst(src, 0, d, S, 8, 0, 0));
         v.push((format!("identical/{tag}"), p));
         // offsets cycle -2^30 s, 0, +2^30 s; two-way delays alternate 1 unit / 65535 s
         let mut p = prefix_usable();
-        p.push(Ev::burst(src, 0, if src == A { 1 } else { 0 }, S, 8, U30, if src == A { D_MAX } else { 0 }));
+        p.push(Ev::burst(
+            src,
+            0,
+            if src == A { 1 } else { 0 },
+            S,
+            8,
+            U30,
+            if src == A { D_MAX } else { 0 },
+        ));
         v.push((format!("alternating-extreme/{tag}"), p));
     }
     // both kinds of source past initialisation at once: a well-behaved two-way source next to
@@ -256,11 +303,17 @@ fn starts06() -> Vec<(String, Vec<Ev>)> {
     let mut p = prefix_usable();
     p.push(Ev::burst(A, 0, MS, S, 8, MS / 10, MS / 50));
     p.push(Ev::burst(G, 0, 0, S, 8, U30, 0));
-    v.push(("benign two-way + alternating-extreme one-way".to_string(), p));
+    v.push((
+        "benign two-way + alternating-extreme one-way".to_string(),
+        p,
+    ));
     let mut p = prefix_usable();
     p.push(Ev::burst(G, 0, 0, S, 8, MS / 10, 0));
     p.push(Ev::burst(A, 0, 1, S, 8, U30, D_MAX));
-    v.push(("benign one-way + alternating-extreme two-way".to_string(), p));
+    v.push((
+        "benign one-way + alternating-extreme two-way".to_string(),
+        p,
+    ));
     v
 }
 
@@ -270,7 +323,11 @@ fn configs06() -> Vec<Cfg> {
         Cfg::default(),
         // every source selectable whatever its uncertainty: extreme estimates reach selection,
         // combination, steering and the published snapshot
-        Cfg { max_src_unc: 1e300, order: 1, ..Cfg::default() },
+        Cfg {
+            max_src_unc: 1e300,
+            order: 1,
+            ..Cfg::default()
+        },
     ]
 }
 
@@ -308,9 +365,18 @@ fn check() {
         full.len()
     ));
     ctx.assume("local time between measurements advances by exactly dt on both the system and the monotonic clock (no meddling), plus the steps the daemon itself applies");
-    ctx.assume("the per-measurement precision field is not an axis: the Kalman code never reads it");
+    ctx.assume(
+        "the per-measurement precision field is not an axis: the Kalman code never reads it",
+    );
     ctx.assume("f64 values behind the published fixed-point numbers are read through read-only probes, because NtpDuration::from_seconds maps NaN to 0 and inf to MAX");
-    ctx.note("alphabet_core", &core.iter().map(|e| e.encode()).collect::<Vec<_>>().join(" "));
+    ctx.note(
+        "alphabet_core",
+        &core
+            .iter()
+            .map(|e| e.encode())
+            .collect::<Vec<_>>()
+            .join(" "),
+    );
     let mut specs = Vec::new();
     for cfg in configs06() {
         for (name, prefix) in starts06() {
@@ -344,7 +410,10 @@ fn check() {
         Ev::Tick,
     ];
     for cfg in configs06() {
-        let cfg = Cfg { sources: c01::periodic_sources(), ..cfg };
+        let cfg = Cfg {
+            sources: c01::periodic_sources(),
+            ..cfg
+        };
         for (name, prefix) in [
             ("periodic/fresh", prefix_usable()),
             ("periodic/two-way benign", {
@@ -373,25 +442,72 @@ fn check() {
     // source agreeing or not, clock meddling = re-initialisation, timer).
     let mut jitter_specs = 0u64;
     {
-        let bases: [i64; 10] = [60 * S, -60 * S, 3600 * S, -3600 * S, 86_400 * S, -86_400 * S, 1_000_000 * S, -1_000_000 * S, 1i64 << 61, -(1i64 << 61)];
+        let bases: [i64; 10] = [
+            60 * S,
+            -60 * S,
+            3600 * S,
+            -3600 * S,
+            86_400 * S,
+            -86_400 * S,
+            1_000_000 * S,
+            -1_000_000 * S,
+            1i64 << 61,
+            -(1i64 << 61),
+        ];
         let scales: [(i64, &str); 3] = [(1, "1u"), (US, "1us"), (MS, "1ms")];
         let patterns: &[u8] = if quick { &[1, 2] } else { &[1, 2, 3] };
         let cfgs = [
-            (Cfg { min_agree: 2, ..Cfg::default() }, "quorum2", 0u8),
+            (
+                Cfg {
+                    min_agree: 2,
+                    ..Cfg::default()
+                },
+                "quorum2",
+                0u8,
+            ),
             (Cfg::default(), "quorum1", 0u8),
-            (Cfg { max_src_unc: 1e300, order: 1, ..Cfg::default() }, "unlimited", 1u8),
+            (
+                Cfg {
+                    max_src_unc: 1e300,
+                    order: 1,
+                    ..Cfg::default()
+                },
+                "unlimited",
+                1u8,
+            ),
         ];
         // (source under initialisation, offset base, delay base, offset jitter, delay jitter)
         let mut cases: Vec<(u8, i64, i64, i64, i64, String)> = Vec::new();
         for &b in &bases {
             for &(j, jn) in &scales {
-                cases.push((A, b, MS, j, j.min(MS / 50), format!("two-way offset {}s jitter {jn}", b / S)));
-                cases.push((G, b, 0, j, 0, format!("one-way offset {}s jitter {jn}", b / S)));
+                cases.push((
+                    A,
+                    b,
+                    MS,
+                    j,
+                    j.min(MS / 50),
+                    format!("two-way offset {}s jitter {jn}", b / S),
+                ));
+                cases.push((
+                    G,
+                    b,
+                    0,
+                    j,
+                    0,
+                    format!("one-way offset {}s jitter {jn}", b / S),
+                ));
             }
         }
         for db in [S, 3600 * S, D_MAX] {
             for &(j, jn) in &scales {
-                cases.push((A, MS, db, j, j, format!("two-way delay {}s jitter {jn}", db / S)));
+                cases.push((
+                    A,
+                    MS,
+                    db,
+                    j,
+                    j,
+                    format!("two-way delay {}s jitter {jn}", db / S),
+                ));
             }
         }
         for (x, b, db, j, dj, name) in &cases {
@@ -428,7 +544,14 @@ fn check() {
         }
     }
     ctx.set("jitter_burst_explorations", jitter_specs);
-    ctx.note("alphabet_periodic", &periodic.iter().map(|e| e.encode()).collect::<Vec<_>>().join(" "));
+    ctx.note(
+        "alphabet_periodic",
+        &periodic
+            .iter()
+            .map(|e| e.encode())
+            .collect::<Vec<_>>()
+            .join(" "),
+    );
     ctx.set("explorations", specs.len() as u64);
     let complete = run_specs::<M06, _>(&ctx, &specs, &judge06);
     ctx.exhaustive(complete);
